@@ -29,14 +29,14 @@ theorem checkSchema_is_metaschema_validation (env : Env) (impl : FmtImpl) (g : G
        | (.invalid e, _) => .schemaError e
        | (.raise e, _) => .raise e
        | (.other x, _) => .other x) := by
-  sorry
+  exact checkSchema_unfold env impl g c fuel s st hst
 
 /-- … and that first error is the first error `iter_errors` of the metaschema validator yields -/
 theorem schemaError_is_first_metaschema_error (env : Env) (impl : FmtImpl) (g : Globals) (c : ClassDef)
     (fuel : Nat) (s : Json) (st : RState) (e : Err) (hst : freshResolver env g c c.metaSchema = .ok st)
     (h : checkSchema env impl g c fuel s = .schemaError e) :
     (eval env impl { c.cfg with formatChecker := none } fuel s c.metaSchema none st).errs.head? = some e := by
-  sorry
+  exact schemaError_head env impl g c fuel s st e hst h
 
 /-- accepted ⇔ the metaschema validator yields no error and ends normally -/
 theorem accepts_iff_no_error (env : Env) (impl : FmtImpl) (g : Globals) (c : ClassDef)
@@ -44,12 +44,16 @@ theorem accepts_iff_no_error (env : Env) (impl : FmtImpl) (g : Globals) (c : Cla
     checkSchema env impl g c fuel s = .ok ↔
       ((eval env impl { c.cfg with formatChecker := none } fuel s c.metaSchema none st).errs = []
         ∧ (eval env impl { c.cfg with formatChecker := none } fuel s c.metaSchema none st).stop = .done) := by
-  sorry
+  exact accepts_iff env impl g c fuel s st hst
 
 /-- every bundled metaschema has the shape its own draft prescribes (so the evaluator's
     no-crash theorems apply with the metaschema as schema and ANY candidate as instance) -/
 theorem meta_shaped (d : Draft) : Spec.shapedR d d.metaSchema = true := by
-  sorry
+  cases d
+  · exact meta_shaped_d3
+  · exact meta_shaped_d4
+  · exact meta_shaped_d6
+  · exact meta_shaped_d7
 
 /-- the `$ref` strings occurring in a metaschema -/
 def refsOf : Json → List Str
@@ -80,13 +84,17 @@ theorem meta_refs_designate_schemas (d : Draft) :
         match resolve (metaEnv d) r { st with scopes := [top] } with
         | (.ok (_, target), st') => Spec.shapedR d target = true ∧ st'.fetchLog = []
         | _ => False := by
-  sorry
+  cases d
+  · exact refsOk_sound (env := metaEnv .d3) (d := .d3) (o := metaState .d3) (by decide +kernel)
+  · exact refsOk_sound (env := metaEnv .d4) (d := .d4) (o := metaState .d4) (by decide +kernel)
+  · exact refsOk_sound (env := metaEnv .d6) (d := .d6) (o := metaState .d6) (by decide +kernel)
+  · exact refsOk_sound (env := metaEnv .d7) (d := .d7) (o := metaState .d7) (by decide +kernel)
 
 /-- **each bundled metaschema is accepted by its own class** (kernel evaluation of the whole
     check under the regenerated URI answers) -/
 theorem meta_self_accept (d : Draft) :
     checkSchema (metaEnv d) ⟨fun _ _ => none⟩ Globals.initial d.classDef 64 d.metaSchema = .ok := by
-  sorry
+  exact selfCheck_ok d
 
 /-- **nothing but SchemaError**: for every candidate, check_schema of a draft returns normally,
     raises SchemaError, or stops in one of the benign ways of C03 (out of fuel; an oracle miss;
@@ -102,6 +110,8 @@ theorem checkSchema_never_crashes (env : Env) (hre : Props.C03.RegexOk env) (hso
      | .raise e => Props.C03.Benign d false (.raised e)
      | .other x => Props.C03.Benign d false x)
     ∨ (Props.C03.evalG env impl d none fuel s d.metaSchema (some 1) st).stop = .raised Props.C03.unshapedTarget := by
-  sorry
+  rcases Props.C03.no_crash env hre hso impl d none fuel s d.metaSchema (meta_shaped d) (some 1) st with h | h
+  · exact .inl (checkSchema_benign env impl g d fuel s st hst h)
+  · exact .inr h
 
 end JS.Props.C11
